@@ -593,7 +593,7 @@ func (ex *Exec) fmtOperand(verb byte, arg Value) ([]Value, string) {
 					if cs, ok := s.(string); ok {
 						return conc(strconv.Quote(cs))
 					}
-					return nil, "%q of symbolic string"
+					return nil, lazyQuote
 				}
 				if o, ok := s.(*Opaque); ok {
 					return nil, o.why
@@ -623,7 +623,7 @@ func (ex *Exec) fmtOperand(verb byte, arg Value) ([]Value, string) {
 			if cs, ok := s.(string); ok {
 				return conc(strconv.Quote(cs))
 			}
-			return nil, "%q of symbolic string"
+			return nil, lazyQuote
 		}
 	case *Opaque:
 		return nil, x.why
@@ -694,7 +694,16 @@ func (ex *Exec) findMethod(t types.Type, name string) *ssa.Function {
 }
 
 // format implements the verbs the code under test uses; unknown verbs make the result opaque.
+// format builds the formatted string. %q of a string with symbolic bytes is expensive
+// (the library's quoting routine is interpreted on it) and usually only feeds error
+// texts nobody reads, so in that case the whole result is computed on demand.
 func (ex *Exec) format(formatV Value, argsV Value) Value {
+	return ex.formatQ(formatV, argsV, false)
+}
+
+const lazyQuote = "%q of symbolic string"
+
+func (ex *Exec) formatQ(formatV Value, argsV Value, quoteNow bool) Value {
 	f, ok := ex.forceStr(formatV).(string)
 	if !ok {
 		return &Opaque{why: "symbolic format string"}
@@ -726,6 +735,14 @@ func (ex *Exec) format(formatV Value, argsV Value) Value {
 			continue
 		}
 		b, why := ex.fmtOperand(verb, args[ai])
+		if why == lazyQuote {
+			if !quoteNow {
+				l := &LazyStr{}
+				l.force = func() Value { return ex.formatQ(formatV, argsV, true) }
+				return l
+			}
+			b, why = ex.quoteSymbolic(ex.fmtQuoteOperand(args[ai]))
+		}
 		ai++
 		if why != "" {
 			return &Opaque{why: why}
@@ -738,8 +755,40 @@ func (ex *Exec) format(formatV Value, argsV Value) Value {
 	return ex.mkStr(out)
 }
 
+// fmtQuoteOperand returns the string %q would quote for an operand (the string itself,
+// or the text of its Error/String method).
+func (ex *Exec) fmtQuoteOperand(a Value) Value {
+	itf, ok := a.(Iface)
+	if !ok || itf.T == nil {
+		return &Opaque{why: "%q operand"}
+	}
+	for _, mname := range []string{"Error", "String"} {
+		if m := ex.findMethod(itf.T, mname); m != nil {
+			return ex.forceStr(ex.callFunction(m, []Value{itf.V}, nil, nil))
+		}
+	}
+	return ex.forceStr(itf.V)
+}
+
 func (ex *Exec) sprintf(formatV, argsV Value) Value {
 	return ex.format(formatV, argsV)
+}
+
+// quoteSymbolic formats a string with symbolic bytes under %q by interpreting the
+// library's own strconv.Quote on it.
+func (ex *Exec) quoteSymbolic(s Value) ([]Value, string) {
+	if o, ok := s.(*Opaque); ok {
+		return nil, o.why
+	}
+	q := ex.eng.funcByName("strconv.Quote")
+	if q == nil {
+		return nil, "%q of symbolic string (strconv.Quote not loaded)"
+	}
+	r := ex.forceStr(ex.callFunction(q, []Value{s}, nil, nil))
+	if o, ok := r.(*Opaque); ok {
+		return nil, o.why
+	}
+	return ex.strBytes(r), ""
 }
 
 func (ex *Exec) sprintln(argsV Value, newline bool) Value {
